@@ -403,6 +403,9 @@ def match_known(pid, viol, known):
             if isinstance(fv, dict) and "re" in fv:
                 if v is None or not re.search(fv["re"], str(v)):
                     ok = False
+            elif isinstance(fv, dict) and "not" in fv:
+                if v in fv["not"]:
+                    ok = False
             elif isinstance(fv, list):
                 if v not in fv:
                     ok = False
